@@ -228,6 +228,9 @@ func mutate(buf []byte, n *node, only map[string]bool) []mutant {
 		return replaceNode(buf, n, tlv(n.tag, v))
 	})
 	add("value-append-00", func() []byte { return replaceNode(buf, n, tlv(n.tag, cat(val, []byte{0}))) })
+	if !n.constructed() {
+		add("value-prepend-00", func() []byte { return replaceNode(buf, n, tlv(n.tag, cat([]byte{0}, val))) })
+	}
 	if L > 1 {
 		add("value-drop-last", func() []byte { return replaceNode(buf, n, tlv(n.tag, val[:L-1])) })
 	}
